@@ -209,6 +209,10 @@ func (w *World) startProxy(yamlText string, keep *[]*Proxy) {
 		done = true
 	})
 	w.K.RunIdle()
+	if !done && w.StartErr == "" && !w.dead() && w.K.PendingEvents() > 0 {
+		// start-up waits for something that takes (simulated) time: let it pass
+		w.K.Settle(10 * time.Second)
+	}
 	if !done && w.StartErr == "" && !w.dead() {
 		// nothing can run any more and start-up has not finished: goroutines of the program waiting for locks (or in a
 		// channel send) that nobody will release is a deadlock of the program - the production process would hang at
@@ -225,7 +229,11 @@ func (w *World) startProxy(yamlText string, keep *[]*Proxy) {
 			w.StartErr = "deadlock"
 			return
 		}
-		w.StartErr = "start-up did not complete"
+		var all []string
+		for _, g := range w.K.Census() {
+			all = append(all, g.Name+" "+g.State)
+		}
+		w.StartErr = fmt.Sprintf("start-up did not complete; goroutines: %v", all)
 	}
 	if w.StartErr != "" {
 		w.K.Failures = append(w.K.Failures, "proxy start failed: "+w.StartErr+"\n"+yamlText)
@@ -237,7 +245,7 @@ func (w *World) startProxy(yamlText string, keep *[]*Proxy) {
 var startProxyKeepFn func(config ProxyConfig, preConfigRoute *PreConfigRoute, resolver *PreConfigHostResolver, keep *[]*Proxy) error
 
 func (w *World) dead() bool {
-	return len(w.K.Panics) > 0 || len(w.K.Failures) > 0 || w.K.StepLimit
+	return len(w.K.Panics) > 0 || len(w.K.Failures) > 0 || w.K.StepLimit || w.K.Abandoned
 }
 
 // collectPanics turns panics of simulated goroutines into violations (the
